@@ -14,6 +14,15 @@ The typed joint iterators (JOINT_ITERATOR_, JOINT3_ITERATOR_) are the generic on
 to sparse streams: the mechanism model spec/JointIter.tla is checked for Kinds = {"sparse"}.
 Recorded random operation sequences call the concrete variant at random where one exists and
 are validated by spec/ContainersTrace.tla.
+
+SPECIAL OPERANDS (Special = TRUE): the same pairing is run over +-Inf, NaN, -0 in scalars and in
+float / magic containers (a zero meeting an Inf/NaN in products), -Inf in LogAdd/LogSub, the
+bounds MinIntN/MaxIntN of the integer types (two's complement wrap-around computed by TLC
+symbolically) and base 0 of Pow with constant / active exponents 0, 1, 2 at derivative orders 1
+and 2.  TLC prints the IEEE class of every result (class algebra in Containers.tla) or the
+meaning as a term; a divergence of the two variants (class, or any derivative / Hessian slot,
+NaN = NaN) is a violation; a class that BOTH variants miss is reported as information
+(coverage.special_both_deviate: C02's business, interchangeability holds).
 """
 import json
 import os
@@ -27,12 +36,14 @@ TIERS = {
     "quick": dict(
         parts=[dict(Part='"all"', MaxN=3, Big=0, Rich=0, Cap=1000)],
         zerovar=[dict(Part='"all"', MaxN=2, Big=0, Rich=0, Cap=300)],
+        special=[dict(Part='"all"', MaxN=2, Big=0, Rich=0, Cap=1000)],
         sim=None, ji=[(2, 4), (3, 3)], ji_bug=[], walk_every=1, record=(200, 1)),
     "thorough": dict(
         parts=[dict(Part='"vec"', MaxN=4, Big=1, Rich=1, Cap=8000),
                dict(Part='"mat"', MaxN=4, Big=1, Rich=1, Cap=8000),
                dict(Part='"prod"', MaxN=4, Big=1, Rich=1, Cap=8000)],
         zerovar=[dict(Part='"all"', MaxN=3, Big=1, Rich=0, Cap=1000)],
+        special=[dict(Part='"all"', MaxN=2, Big=0, Rich=0, Cap=1000)],
         sim=dict(num=6000, SimN=8), ji=[(2, 5), (3, 4)], ji_bug=[], walk_every=1, record=(400, 6)),
 }
 
@@ -54,11 +65,18 @@ def run(ctx):
     # mechanism of the concrete methods: the typed joint iterators = sparse streams only
     base.mechanism(ctx, conf, kinds='{"sparse"}', tag="typed")
     total = {}
-    runs = [("c09-" + str(i), p, False) for i, p in enumerate(conf["parts"])] + \
-           [("c09-zerovar-" + str(i), p, True) for i, p in enumerate(conf["zerovar"])]
+    runs = [("c09-" + str(i), p, False, False) for i, p in enumerate(conf["parts"])] + \
+           [("c09-zerovar-" + str(i), p, True, False) for i, p in enumerate(conf["zerovar"])] + \
+           [("c09-special-" + str(i), p, False, True) for i, p in enumerate(conf["special"])]
     sampled = False
-    for label, consts, zv in runs:
-        cases, res = base.gen_cases(ctx, "c09", consts, label, zerovar=zv)
+    for label, consts, zv, sp in runs:
+        cases, res = base.gen_cases(ctx, "c09", consts, label, zerovar=zv, special=sp)
+        if sp:
+            with open(cases) as f:
+                for line in f:
+                    if '"ib"' in line and '"Abs"' in line:
+                        ctx.sample({"special_integer_bound_record": json.loads(line)})
+                        break
         if not sampled:
             with open(cases) as f:
                 for line in f:
@@ -70,6 +88,13 @@ def run(ctx):
         ctx.log("%s: %d records -> %d generic cases, %d generic/concrete pairs run, %d scalar pairs, mismatches=%d"
                 % (label, s["records"], s["cases"], s["concrete_cases"], s["scalar_cases"], s["mismatches"]))
         base.merge_summary(total, s)
+        if sp:
+            need = ["S:LogSub", "S:Pow", "S:Abs", "S:Sqrt", "MdotM", "VmulV", "MdotV", "VdotM", "Outer", "VdotV"]
+            miss = [o for o in need if s.get("by_op", {}).get(o, 0) == 0]
+            if miss:
+                raise vlib.Infra("vacuous special-operand run: no case for %s" % miss)
+            ctx.extra["special_operand_cases"] = {"container_pairs": s["concrete_cases"], "scalar_pairs": s["scalar_cases"],
+                                                  "records": s["records"]}
         os.remove(cases)
     if conf["sim"]:
         cases, res = base.gen_cases(ctx, "c09", dict(Part='"all"', MaxN=conf["parts"][0]["MaxN"], Big=0, Rich=1, Cap=1000,
@@ -96,6 +121,10 @@ def run(ctx):
     ctx.extra["generic_concrete_scalar_cases"] = total["scalar_cases"]
     ctx.extra["cases_by_operation"] = total.get("by_op", {})
     ctx.extra["recorded_events"] = nev
+    # special operands on which BOTH variants miss the IEEE class TLC printed (information, not a verdict)
+    ctx.extra["special_both_deviate"] = total.get("both_deviate", {})
+    ex = total.get("both_deviate_examples", {})
+    ctx.extra["special_both_deviate_examples"] = {k: ex[k] for k in sorted(ex)[:6]}
     ctx.extra["bounds"] = {"tier": ctx.tier, "case_runs": conf["parts"], "zero_valued_variable_runs": conf["zerovar"],
                            "simulate": conf["sim"], "scalar_grid": "-2..2 (Div: exact quotients and zero divisors)",
                            "record": {"ops": nops, "traces_per_type": ntr}}
